@@ -349,10 +349,14 @@ static void apply_case(V *doc, V *patch, int inplace)
 	{
 		base = jdoc;
 		jdoc = NULL;
+		errno = mc_errno_pre;
 		rc = json_patch_apply(NULL, jpatch, &base, &perr);
 	}
 	else
+	{
+		errno = mc_errno_pre;
 		rc = json_patch_apply(jdoc, jpatch, &base, &perr);
+	}
 	mc_phase = "after-apply";
 	sb_reset(&d_patch1);
 	vf_dump(jpatch, &d_patch1, 0);
